@@ -130,6 +130,34 @@ def _src_gbox(res, pin, size=None):
     return g, (lo_x, lo_y, hi_x, hi_y)
 
 
+class _GcpMap:
+    """stands for a fitted control-point mapping whose pixel->world function is its linear
+    equivalent (10 m pixels, inverted Y, symbolic origin)"""
+
+    def __init__(self, c, f):
+        from affine import Affine
+        from odc.geo.crs import CRS
+        from odc.geo.types import resxy_
+
+        self.crs = CRS(SRC_CRS)
+        self.approx = Affine(rconst(10), 0.0, c, 0.0, rconst(-10), f)
+        self.resolution = resxy_(rconst(10), rconst(-10))
+
+    def p2w(self, x, y):
+        return self.approx * (x, y)
+
+    def w2p(self, x, y):
+        return (~self.approx) * (x, y)
+
+
+def _gcp_src(zoom):
+    """a view of a control-point grid zoomed out by `zoom` (an overview): its pixels are zoom x 10 m"""
+    from affine import Affine
+    from odc.geo.gcp import GCPGeoBox
+
+    return GCPGeoBox((Int("src_ny", 1, 1000), Int("src_nx", 1, 1000)), _GcpMap(Real("src_c"), Real("src_f")), Affine(rconst(zoom), 0.0, rconst(0), 0.0, rconst(zoom), rconst(0)))
+
+
 def _spell(crs, how):
     from odc.geo.crs import CRS
 
@@ -255,13 +283,17 @@ def _fp_box(pin, tag="fp"):
     return (l, b, l + w, b + h)
 
 
-def h_other_crs(res, dst, mode, pin, req=None, anchor="default", tight=False, fit=None, rounding="none"):
+def h_other_crs(res, dst, mode, pin, req=None, anchor="default", tight=False, fit=None, rounding="none", gcp_zoom=None):
     """fit = [centre-pixel span x, span y, fitted scale x, scale y] (grid)"""
     import odc.geo.overlap as ov
     from odc.geo.types import resxy_, xy_
 
-    g, _ = _src_gbox(res, "both")
-    rx, ry = F(res[0]), F(res[1])
+    if gcp_zoom is None:
+        g, _ = _src_gbox(res, "both")
+        rx, ry = F(res[0]), F(res[1])
+    else:
+        g = _gcp_src(gcp_zoom)
+        rx, ry = F(10 * gcp_zoom), F(-10 * gcp_zoom)
     dcrs = DST[dst]
     fp = _fp_box(pin)
     responses = [fp]
@@ -630,6 +662,11 @@ def _own_params(tier, rng):
                 out.append(dict(res=r, spelling="obj", mode="explicit", pin=pin, req=q, anchor=("default", "center", "xy")[i % 3], tight=(i % 5 == 0)))
                 i += 1
             out.append(dict(res=r, spelling="str", mode="tol", pin=pin, req=["25", "-25"]))
+    # both pixel sizes negative, the larger one in magnitude negative: the buffer must still go outwards
+    for r in (["-10", "-20"], ["10", "-20"], ["-10", "-10"]):
+        for pin in ("x", "y"):
+            out.append(dict(res=r, spelling="obj", mode="same", pin=pin, anchor="center"))
+        out.append(dict(res=r, spelling="str", mode="explicit", pin="x", req=["5", "-5"]))
     return out
 
 
@@ -648,6 +685,12 @@ def _other_params(tier, rng):
             out.append(dict(res=r, dst="degree", mode="auto", pin=pin, fit=fits[0], rounding=("none", "false")[i % 2]))
             out.append(dict(res=r, dst="metre", mode="fit", pin=pin, fit=fits[1], rounding=("true", "callable")[i % 2], anchor=("default", "center")[i % 2]))
             i += 1
+    # a control-point source seen through an overview (zoomed out 4x): its resolution is 4 x the native one
+    out.append(dict(res=["40", "-40"], dst="metre", mode="auto", pin="x", gcp_zoom=4))
+    out.append(dict(res=["40", "-40"], dst="albers", mode="same", pin="y", gcp_zoom=4, anchor="center"))
+    for r in (["-10", "-20"], ["10", "-20"]):
+        out.append(dict(res=r, dst="metre", mode="auto", pin="x"))
+        out.append(dict(res=r, dst="degree", mode="explicit", pin="y", req=["1/400", "-1/400"]))
     return out
 
 
